@@ -322,6 +322,22 @@ def gen_longhist(seed, n=None):
     return {"seed": seed, "profile": "longhist", "root": "root", "tree": tree, "ops": ops}
 
 
+def unsteady_clock(sc, rnd, p=0.6):
+    """the wall clock is not monotone across generations (a workstation whose clock was set back, generations written on
+    different machines): every create after the first gets, with probability p, a time EARLIER than everything before"""
+    k = 0
+    seen = False
+    for o in sc["ops"]:
+        if o["op"] != "create":
+            continue
+        if seen and rnd.random() < p:
+            k += 1
+            o["now"] = "2026-02-%02d %02d:%02d:%02d" % (max(1, 27 - k), (23 - k) % 24, (59 - 7 * k) % 60, (k * 13) % 60)
+        seen = True
+    sc["unsteady_clock"] = True
+    return sc
+
+
 def describe(sc):
     """distribution features of a scenario for the evidence file"""
     ops = [o["op"] for o in sc["ops"]]
